@@ -190,6 +190,9 @@ def check(run):
         third = ShellSpec(0, [x + 0.7 for x in pair[0].center], [core.rand_exp(rng, 0.3, 1.5)], [[1.0]])
         for arrangement in ((pair[0], pair[1], pair[0], pair[1]), (pair[0], pair[1], third, third), (third, third, pair[0], pair[1]), (pair[1], pair[0], third, pair[0])):
             quartet_case(run, list(arrangement), "general", "tight+diffuse contracted shells %g bohr apart" % R_)
+    # two shells of one angular momentum with different declared Cartesian orders inside one quartet
+    from checks import c09 as _c09
+    _c09.same_l_conventions_case(run, rng, quick, names=["eri_chemist", "eri_physicist"][: 1 if quick else 2])
     # nearly coincident centres within the bra and between bra and ket
     from checks.common import NEAR_LADDER
     for n, ls in enumerate([(0, 1, 0, 0), (1, 1, 0, 1), (0, 2, 1, 0), (1, 0, 1, 0)] + ([] if quick else [(2, 1, 1, 1), (1, 2, 2, 0), (0, 0, 0, 1), (2, 2, 0, 0)])):
@@ -238,6 +241,9 @@ def check(run):
 
 def replay(run, rep):
     n0 = len(run.violations)
+    if rep.get("case") == "convention":
+        from checks import c09 as _c09
+        return _c09.replay(run, rep)
     if rep.get("case") == "large-quartet":
         large_quartet_case(run, run.rng, False)
     elif rep.get("case") == "quartet":
